@@ -58,6 +58,16 @@ def check(pc, goal, timeout_ms, dump=None, second=False):
         out['status'] = 'refuted'
         out['model'] = _small_model(s, fs) or s.model()
         return out
+    # neither proved nor refuted: look for a counter-model with small sizes (adding constraints only -- a model found here is a model of the VC;
+    # MBQI terminates on the small instances where it diverges on the unbounded one)
+    if not stringy:
+        m = _small_size_model(fs)
+        if m is not None:
+            out['status'] = 'refuted'
+            out['model'] = m
+            out['backend'] += ' (counter-model search with integer constants in 0..1 / -1..2)'
+            out['seconds'] = round(time.time() - t0, 4)
+            return out
     # unknown: quantifier instantiation is order-sensitive -- retry with other seeds (an unsat answer is sound whatever the seed)
     for seed in (() if stringy else (7, 23)):
         s2 = z3.Solver()
@@ -83,6 +93,40 @@ def check(pc, goal, timeout_ms, dump=None, second=False):
     out['status'] = 'undecided'
     out['reason'] = f'z3: {s.reason_unknown()}; cvc5: {r2}'
     return out
+
+
+def _int_consts(fs):
+    ints, seen = {}, set()
+
+    def walk(t):
+        if t.get_id() in seen:
+            return
+        seen.add(t.get_id())
+        if z3.is_quantifier(t):
+            walk(t.body())
+        elif z3.is_app(t):
+            if t.num_args() == 0 and t.sort() == z3.IntSort() and t.decl().kind() == z3.Z3_OP_UNINTERPRETED:
+                ints[t.get_id()] = t
+            for c in t.children():
+                walk(c)
+    for f in fs:
+        walk(f)
+    return list(ints.values())
+
+
+def _small_size_model(fs):
+    ints = _int_consts(fs)
+    if not ints:
+        return None
+    for lo, hi in ((0, 1), (-1, 2)):
+        s = z3.Solver()
+        s.set('timeout', 8000)
+        s.add(fs)
+        for t in ints:
+            s.add(t >= lo, t <= hi)
+        if s.check() == z3.sat:
+            return s.model()
+    return None
 
 
 def _small_model(s, fs):
